@@ -321,6 +321,9 @@ def run_power(case):
             b = [tuple(round(float(x), 9) for x in r) for r in alone]
             if a != b:
                 fails.append(f"{name}: entry {a} differs from the metric's own solve_power {b}")
+    for c in Plain.PowerPlain.calls:
+        if c[2] != "power":
+            fails.append(f"{c[0]}: the plain power metric was asked for {c[2]!r}, Experiment.solve_power was called with 'power'")
     return objs, observed, [c[0] for c in Plain.PowerPlain.calls], list(res), fails
 
 
